@@ -53,6 +53,7 @@ def spec (q : Nat) (u t : Leg) (o : Out) : Bool :=
 def legOfStr (s : String) : Option Leg :=
   match s.splitOn ":" with
   | ["err"] => some .err
+  | ["hang"] => some .err     -- a leg that never answers: its exchange ends with an error at the caller's deadline
   | ["ok", tag, tc] => do
       let tag ← natOfStr tag
       let tc ← boolOfStr tc
@@ -81,7 +82,9 @@ def run (case impl : String) : String × String :=
   match kvNat toks "q", (kvGet toks "u").bind legOfStr, (kvGet toks "t").bind legOfStr with
   | some q, some u, some t =>
     let m := strOfOut (exchange q u t)
-    let v := match outOfStr impl with
+    let v :=
+      if kvGet (words impl) "res" == some "nilnil" then "viol:neither-message-nor-error"
+      else match outOfStr impl with
       | some o => if spec q u t o then "ok" else "viol"
       | none => "unparsed"
     (m, v)
@@ -93,7 +96,7 @@ def run (case impl : String) : String × String :=
 def seqModel (k : Nat) : List Leg := (List.range k).map fun i => (exchange i (.msg (1000 + i) true) (.msg (2000 + i) false)).result
 
 def runSeq (case impl : String) : String × String :=
-  match kvNat (words case) "seq" with
+  match (kvNat (words case) "seq").map (· * ((kvNat (words case) "par").getD 1)) with
   | some k =>
     let out := "res=" ++ ",".intercalate ((seqModel k).map fun l => match l with | .msg _ false => "ok" | .msg _ true => "tc" | .err => "err")
     let v := if impl == "panic" then "viol:panic"
